@@ -64,7 +64,7 @@ pub fn meta(id: &str) -> Option<CheckMeta> {
         "C15" => Some(CheckMeta {
             id: "C15",
             level: "fault_enumeration",
-            rule: "images are built by generated write workloads plus a fixed tail (tables on >=2 levels with 16-256 byte blocks, compressible and incompressible values, a manifest with several records, a live WAL with single and multi-key batches); for every persistent file (CURRENT, manifest, WAL, every table) bytes are replaced (quick: one hashed bit flip and one of {0x00,0xff,hashed byte} at every offset of CURRENT/manifest/WAL and of the last 220 bytes of each table, every 3rd offset of the rest of each table, plus ~24 truncation lengths per file, capped at 2500 hashed points per image; thorough: all 8 bit flips + 0x00 + 0xff + hashed byte at every offset and every truncation length). The damaged copy is opened with a fresh block cache and must fail to open, or every get must return the expected value or an error and every scan must be ordered, contain only pairs that were written, and be complete or end with an error; for the WAL the documented skipping of damaged records is allowed (state = base + atomic subsequence of the batches containing all batches before the damage). A scan that stops early must say so through the iterator status channel (take_error). A value never written for its key is a violation always; stale/missing results caused by damage to an unchecksummed manifest fragment header byte (offset signature) are attributed to the open known finding log-fragment-header-not-checksummed. Panics on damaged input are counted as detected-ungraceful. evaluations = damaged images evaluated; non-trivial = the damaged byte was actually read by the database afterwards; distinct by (image hash, file, mutation)".into(),
+            rule: "images are built by generated write workloads plus a fixed tail (tables on >=2 levels with 16-256 byte blocks, compressible and incompressible values, a manifest with several records, a live WAL with single and multi-key batches); for every persistent file (CURRENT, manifest, WAL, every table) bytes are replaced (quick: one hashed bit flip and one of {0x00,0xff,hashed byte} at every offset of CURRENT/manifest/WAL and of the last 220 bytes of each table, every 3rd offset of the rest of each table, plus ~24 truncation lengths per file, capped at 2500 hashed points per image; thorough: all 8 bit flips + 0x00 + 0xff + hashed byte at every offset and every truncation length). The damaged copy is opened with a fresh block cache and must fail to open, or every get must return the expected value or an error and every scan must be ordered, contain only pairs that were written, and be complete or end with an error; for the WAL the documented skipping of damaged records is allowed (state = base + atomic subsequence of the batches containing all batches before the damage). A scan that stops early must say so through the iterator status channel (take_error). For table damage the database is then asked to compact everything (compact_range(all), quiescence) and every key is read again: the compaction must fail or rewrite what it could verify, it must not drop or resurrect data silently; every image ends with a queue-like table (the lowest ten keys written and deleted again, live keys behind them) so that compactions start with a long run of entries they drop entirely. A value never written for its key is a violation always; stale/missing results caused by damage to an unchecksummed manifest fragment header byte (offset signature) are attributed to the open known finding log-fragment-header-not-checksummed. Panics on damaged input are counted as detected-ungraceful. evaluations = damaged images evaluated; non-trivial = the damaged byte was actually read by the database afterwards; distinct by (image hash, file, mutation)".into(),
             assumptions: vec![
                 "corruption happens while the database is closed; the block cache is fresh at open".into(),
                 "a panic or failed open counts as detection (the damage was not served as data)".into(),
